@@ -12,6 +12,9 @@ Three kinds of plain-data case:
               fresh BinaryBoxProtocol to those boxes, delivered whole and
               delivered split at the generated cut points.
  kind=arg   : Argument.toStringProto / fromStringProto of one (type, value).
+ kind=arghist: ONE Argument object used for a sequence of round trips and of
+              decodes of cut-short / foreign strings; every round trip of a
+              valid value must hold whatever the object decoded before.
  kind=cmd   : a Command with a generated argument schema: makeArguments ->
               sendBox -> split stream -> parsed box -> parseArguments.
 """
@@ -27,10 +30,10 @@ META = dict(
     property="C30",
     level="exploration",
     technique="Hypothesis-generated box sequences and typed argument values; serialize -> independent reference decoder + real parser under generated/enumerated stream splits; refusal oracle for unrepresentable boxes",
-    level_text="Random sequences of AMP boxes (keys 1..255 bytes, values 0..65535 bytes, boundary lengths forced) mixed with unrepresentable ones (empty / 256+ byte keys, 65536+ byte values, str/int/None/float/list/tuple keys or values) are sent through BinaryBoxProtocol.sendBox; every refusal must leave the transport untouched, and the written stream must decode to the accepted boxes both with a reference decoder and with BinaryBoxProtocol fed whole, byte-wise, cut inside every length prefix, and at random cuts; all single and double cuts of four fixed streams are enumerated. Every argument type round-trips generated values directly and through Command.makeArguments/parseArguments over the wire. Sampled, not exhaustive.",
+    level_text="Random sequences of AMP boxes (keys 1..255 bytes, values 0..65535 bytes, boundary lengths forced) mixed with unrepresentable ones (empty / 256+ byte keys, 65536+ byte values, str/int/None/float/list/tuple keys or values) are sent through BinaryBoxProtocol.sendBox; every refusal must leave the transport untouched, and the written stream must decode to the accepted boxes both with a reference decoder and with BinaryBoxProtocol fed whole, byte-wise, cut inside every length prefix, and at random cuts; all single and double cuts of four fixed streams are enumerated. Every argument type round-trips generated values directly and through Command.makeArguments/parseArguments over the wire; histories on ONE (shared, schema-level) Argument object interleave valid round trips with decodes of truncated / extended / foreign strings, and each valid round trip must be independent of what the object decoded before. Sampled, not exhaustive.",
     level_note="Trusted: the reference decoder (30 lines, from the BinaryBoxProtocol docstring), Python's struct/decimal/datetime. Equality oracle: floats bitwise (NaN by class), Decimal by as_tuple, DateTime by wall-clock fields and utcoffset (sub-minute offsets: within one minute), FilePath by == and .path. Integers are kept below 2^8000 (CPython's 4300-digit int<->str limit). Sub-minute UTC offsets below -23:59 are not generated (they cannot be expressed in the wire format).",
     design_ref="§5 C30",
-    rule="boxes: case = (list of boxes as key/value specs, cut mode). non-trivial = >=2 representable boxes and at least one cut strictly inside a 2-byte length prefix; distinct by (boxes, effective cut offsets). arg/cmd: non-trivial = value is special (|int|>=2^64, non-finite/-0.0/subnormal float, special or exponent-bearing Decimal, non-zero UTC offset, non-ASCII text, list nesting >=2, AmpList with >=2 rows); distinct by (spec, value).",
+    rule="boxes: case = (list of boxes as key/value specs, cut mode). non-trivial = >=2 representable boxes and at least one cut strictly inside a 2-byte length prefix; distinct by (boxes, effective cut offsets). arg/cmd: non-trivial = value is special (|int|>=2^64, non-finite/-0.0/subnormal float, special or exponent-bearing Decimal, non-zero UTC offset, non-ASCII text, list nesting >=2, AmpList with >=2 rows); distinct by (spec, value). arghist: non-trivial = a valid round trip is checked after a malformed decode on the same argument object; distinct by (spec, steps).",
 )
 
 MAXK = 255
@@ -529,6 +532,72 @@ def run_arg(ctx, case):
             ctx.sample(case)
 
 
+def mutate(wire, mut):
+    """A malformed / foreign encoding derived from a valid one."""
+    kind, x = mut
+    if kind == "cut":
+        return wire[:max(0, len(wire) - x)]
+    if kind == "keep":
+        return wire[:x]
+    if kind == "append":
+        return wire + bytes(x)
+    if kind == "raw":
+        return bytes(x)
+    raise ValueError(mut)
+
+
+def run_arghist(ctx, case):
+    """One Argument object (they are shared, class-level schema objects) is
+    used for a sequence of encodes/decodes.  Every round trip of a valid value
+    must hold whatever the object was used for before -- including a decode of
+    a cut-short or foreign string, whose own outcome is left unspecified."""
+    from twisted.protocols import amp
+    spec = case["spec"]
+    arg = build_arg(amp, spec)
+    junk_before = 0
+    checked_after_junk = 0
+    for i, step in enumerate(case["steps"]):
+        obj = build_val(amp, spec, step[1])
+        wire = arg.toStringProto(obj, None)
+        if step[0] == "junk":
+            bad = mutate(wire, step[2])
+            if bad == wire:
+                continue
+            try:
+                arg.fromStringProto(bad, None)
+                ctx.count("arghist: malformed decode returned a value")
+            except Exception as e:  # outcome of decoding a malformed string is not specified
+                ctx.count("arghist: malformed decode raised " + type(e).__name__)
+            junk_before += 1
+            continue
+        try:
+            back = arg.fromStringProto(wire, None)
+            r = same(spec, obj, back)
+        except Exception as e:  # classified just below; re-raised unless history explains it
+            back, r = e, ("raise", f"decoding a valid encoding raised {e!r}")
+        if r:
+            fresh = build_arg(amp, spec)
+            r2 = same(spec, obj, fresh.fromStringProto(fresh.toStringProto(obj, None), None))
+            if r2 is None:
+                if r[0] == "raise":
+                    r = (spec[0], r[1])
+                ctx.violation(f"arg-{r[0]}-roundtrip-depends-on-history", case,
+                              f"step {i} on a reused {tname(spec)} argument object: {r[1]}; a fresh object round-trips; "
+                              f"{junk_before} malformed decode(s) before; wire={wire[:120]!r}")
+            if isinstance(back, Exception):
+                raise back
+            ctx.violation(f"arg-{r[0]}-roundtrip", case, f"step {i}: {r[1]}; wire={wire[:200]!r}")
+        if junk_before:
+            checked_after_junk += 1
+    ctx.count("arghist case")
+    for t in sorted(all_types(spec, set())):
+        ctx.count("arghist type " + t)
+    if checked_after_junk:
+        ctx.count("arghist: valid round trip after a malformed decode on the same object", checked_after_junk)
+        ctx.count("nontrivial arghist")
+        ctx.nontrivial(("arghist", dumps(spec), dumps(case["steps"])))
+
+
 def run_cmd(ctx, case):
     from twisted.protocols import amp
     args = case["args"]
@@ -598,6 +667,8 @@ def run_case(ctx, case):
         return run_arg(ctx, case)
     if kind == "cmd":
         return run_cmd(ctx, case)
+    if kind == "arghist":
+        return run_arghist(ctx, case)
     raise ValueError(kind)
 
 
@@ -800,6 +871,34 @@ def arg_case(draw):
     return dict(kind="arg", spec=spec, value=draw_value(draw, spec))
 
 
+MUTS = st.one_of(
+    st.tuples(st.just("cut"), st.integers(1, 6)).map(list),
+    st.tuples(st.just("keep"), st.integers(0, 12)).map(list),
+    st.tuples(st.just("append"), st.one_of(st.binary(min_size=1, max_size=4),
+                                           st.sampled_from([b"\x00", b"\x00\x05ab", b"\x00\x01"]))).map(list),
+    st.tuples(st.just("raw"), st.binary(max_size=12)).map(list),
+)
+
+
+@st.composite
+def arghist_case(draw):
+    # containers first: they are the types that parse with helper objects
+    if draw(st.integers(0, 3)) > 0:
+        inner = draw_spec(draw, depth=1, in_list=draw(st.booleans()))
+        spec = ["list", inner] if (inner[0] != "amplist" and draw(st.booleans())) else \
+            ["amplist", [[b"a", inner, draw(st.booleans())], [b"b", ["int"], True]]]
+    else:
+        spec = draw_spec(draw)
+    steps = []
+    for _ in range(draw(st.integers(2, 5))):
+        v = draw_value(draw, spec)
+        if draw(st.integers(0, 4)) < 2:
+            steps.append(["junk", v, draw(MUTS)])
+        else:
+            steps.append(["rt", v])
+    return dict(kind="arghist", spec=spec, steps=steps)
+
+
 @st.composite
 def cmd_case(draw):
     names = draw(st.lists(NAMES, min_size=0, max_size=5, unique_by=lambda n: pyname(n)))
@@ -850,6 +949,9 @@ def _hyp_shard(sub, i):
     if sub.has_violation():
         return
     hyp_run(sub, cmd_case(), run_case, 4000, label=f"cmd{i}")
+    if sub.has_violation():
+        return
+    hyp_run(sub, arghist_case(), run_case, 6000, label=f"arghist{i}")
 
 
 def run(ctx):
@@ -867,3 +969,6 @@ def run(ctx):
     if ctx.has_violation():
         return
     hyp_run(ctx, cmd_case(), run_case, 1000, label="cmd")
+    if ctx.has_violation():
+        return
+    hyp_run(ctx, arghist_case(), run_case, 1200, label="arghist")
